@@ -18,7 +18,7 @@ def cards_params(shape, allow_zero_max=False, star=False):
     pre = []
     for i, (p, cs) in enumerate(rels):
         k = len(cs)
-        if star:
+        if star and (star != 'groups' or k > 1):
             pre.append('0 <= a%d <= %d and ((a%d <= b%d <= %d and b%d >= 1) or b%d == -1)' % (i, k, i, i, k, i, i))
         else:
             pre.append('0 <= a%d <= b%d <= %d' % (i, i, k) + ('' if allow_zero_max else ' and b%d >= 1' % i))
